@@ -169,7 +169,8 @@ def check_sgio(prog, run):
     file = prog.rel(ex.module)
     npaths = 0
     nfault = 0
-    for raw, prior in ((False, None), (True, None), (False, "reused"), (True, "reused")):
+    # (the flag in every form callers use for the library's 0/1 style flags: False / True, 0 / 1, an explicit None)
+    for raw, prior in ((False, None), (True, None), (False, "reused"), (True, "reused"), (0, None), (1, None), (None, None)):
         si = StandIn(prog, check_condition="fork", other_sgio_error="fork").install()
         try:
             def t(raw=raw, prior=prior):
@@ -258,7 +259,8 @@ def check_iscsi(prog, run):
     missing = believed_missing(ex)
     run.notes.append("ISCSIDevice.execute reads %s under `except AttributeError`: the stand-in forks on their absence" % sorted(missing))
     no_sense = sense_less_outcome(prog) if missing else None
-    for raw, prior in ((False, None), (True, None), (False, "reused"), (True, "reused")):
+    # (the flag in every form callers use for the library's 0/1 style flags: False / True, 0 / 1, an explicit None)
+    for raw, prior in ((False, None), (True, None), (False, "reused"), (True, "reused"), (0, None), (1, None), (None, None)):
         si = StandIn(prog, maybe_missing=missing).install()
         try:
             def t(raw=raw, prior=prior):
